@@ -300,7 +300,7 @@ func init() {
 			}
 		},
 		Sections: func(tier core.Tier, seed int64) []core.Section {
-			maxLen, nShort, nRandom := 2, 40000, 300
+			maxLen, nShort, nRandom := 2, 24000, 300
 			if tier == core.Thorough {
 				maxLen, nShort, nRandom = 3, 3000000, 20000
 			}
